@@ -33,6 +33,7 @@ type Config struct {
 	// re-execution of a counterexample); PinnedUF likewise for UF points.
 	Pinned   map[string][]string
 	PinnedUF map[string][][]string
+	NoPortfolio bool
 	// NoOps lists function-name prefixes whose calls return zero values.
 	NoOps []string
 	// DropGo lists functions whose `go` statements are ignored.
